@@ -2,6 +2,7 @@ package eng
 
 import (
 	"fmt"
+	"reflect"
 
 	"github.com/mlange-42/ark/ecs"
 )
@@ -37,7 +38,7 @@ func scaleCheck(seed uint64) {
 		x = x*6364136223846793005 + 1442695040888963407
 		return int((x >> 33) % uint64(n))
 	}
-	kind := next(5)
+	kind := next(6)
 	defer func() {
 		if r := recover(); r != nil {
 			if _, ok := r.(*Violation); ok {
@@ -57,8 +58,176 @@ func scaleCheck(seed uint64) {
 		scaleRows(seed, next)
 	case 3:
 		scaleReset(seed, next)
-	default:
+	case 4:
 		scaleRegistrations(seed, next)
+	default:
+		scaleVersions(seed, next)
+	}
+}
+
+type scaleZ struct{ V int8 }
+type scaleC struct{ V int16 }
+type scaleD struct{ V int32 }
+type scaleE struct{ V int64 }
+type scaleF struct{ V uint8 }
+type scaleG struct{ V uint16 }
+type scaleH struct{ V uint32 }
+
+// scaleVersions: a world in which thousands of archetypes are created one after the other (the registry's counters
+// that typed filters compare their cached hints with pass 2^16, in steps of one near the limit). After every new
+// archetype, typed filters of every arity that are used for the first time, and ones kept from the start, must count
+// and visit what the ID-based filter over the same components does.
+func scaleVersions(seed uint64, next func(int) int) {
+	w := ecs.NewWorld(1, 1)
+	u := w.Unsafe()
+	ecs.ComponentID[scaleZ](w) // ID 0
+	ids := []ecs.ID{ecs.ComponentID[scaleA](w), ecs.ComponentID[scaleB](w), ecs.ComponentID[scaleC](w), ecs.ComponentID[scaleD](w),
+		ecs.ComponentID[scaleE](w), ecs.ComponentID[scaleF](w), ecs.ComponentID[scaleG](w), ecs.ComponentID[scaleH](w)}
+	zID := ecs.ComponentID[scaleZ](w)
+	var fill []ecs.ID
+	for k := 0; k < 240; k++ {
+		fill = append(fill, ecs.TypeID(w, reflect.ArrayOf(k+1, reflect.TypeFor[int8]())))
+	}
+	// matching entities: per arity n, 2+n entities with the first n components, one more that also has Z
+	want := make([]int, 9)
+	for n := 1; n <= 8; n++ {
+		for i := 0; i < 2+n; i++ {
+			u.NewEntity(ids[:n]...)
+		}
+		u.NewEntity(append([]ecs.ID{zID}, ids[:n]...)...)
+	}
+	for n := 1; n <= 8; n++ {
+		for m := n; m <= 8; m++ {
+			want[n] += 3 + m
+		}
+	}
+	where := ""
+	cnt := func(c int, it func() bool) int {
+		v := 0
+		for it() {
+			v++
+		}
+		if v != c {
+			fail("scale|count", "%s: Count %d, visited %d", where, c, v)
+		}
+		return c
+	}
+	typed := func(n int, kept *[9]any) int {
+		switch n {
+		case 1:
+			f, _ := kept[n].(*ecs.Filter1[scaleA])
+			if f == nil {
+				f = ecs.NewFilter1[scaleA](w)
+			}
+			q := f.Query()
+			return cnt(q.Count(), q.Next)
+		case 2:
+			f, _ := kept[n].(*ecs.Filter2[scaleA, scaleB])
+			if f == nil {
+				f = ecs.NewFilter2[scaleA, scaleB](w)
+			}
+			q := f.Query()
+			return cnt(q.Count(), q.Next)
+		case 3:
+			f, _ := kept[n].(*ecs.Filter3[scaleA, scaleB, scaleC])
+			if f == nil {
+				f = ecs.NewFilter3[scaleA, scaleB, scaleC](w)
+			}
+			q := f.Query()
+			return cnt(q.Count(), q.Next)
+		case 4:
+			f, _ := kept[n].(*ecs.Filter4[scaleA, scaleB, scaleC, scaleD])
+			if f == nil {
+				f = ecs.NewFilter4[scaleA, scaleB, scaleC, scaleD](w)
+			}
+			q := f.Query()
+			return cnt(q.Count(), q.Next)
+		case 5:
+			f, _ := kept[n].(*ecs.Filter5[scaleA, scaleB, scaleC, scaleD, scaleE])
+			if f == nil {
+				f = ecs.NewFilter5[scaleA, scaleB, scaleC, scaleD, scaleE](w)
+			}
+			q := f.Query()
+			return cnt(q.Count(), q.Next)
+		case 6:
+			f, _ := kept[n].(*ecs.Filter6[scaleA, scaleB, scaleC, scaleD, scaleE, scaleF])
+			if f == nil {
+				f = ecs.NewFilter6[scaleA, scaleB, scaleC, scaleD, scaleE, scaleF](w)
+			}
+			q := f.Query()
+			return cnt(q.Count(), q.Next)
+		case 7:
+			f, _ := kept[n].(*ecs.Filter7[scaleA, scaleB, scaleC, scaleD, scaleE, scaleF, scaleG])
+			if f == nil {
+				f = ecs.NewFilter7[scaleA, scaleB, scaleC, scaleD, scaleE, scaleF, scaleG](w)
+			}
+			q := f.Query()
+			return cnt(q.Count(), q.Next)
+		default:
+			f, _ := kept[n].(*ecs.Filter8[scaleA, scaleB, scaleC, scaleD, scaleE, scaleF, scaleG, scaleH])
+			if f == nil {
+				f = ecs.NewFilter8[scaleA, scaleB, scaleC, scaleD, scaleE, scaleF, scaleG, scaleH](w)
+			}
+			q := f.Query()
+			return cnt(q.Count(), q.Next)
+		}
+	}
+	var kept, none [9]any
+	kept[1] = ecs.NewFilter1[scaleA](w)
+	kept[2] = ecs.NewFilter2[scaleA, scaleB](w)
+	kept[3] = ecs.NewFilter3[scaleA, scaleB, scaleC](w)
+	kept[4] = ecs.NewFilter4[scaleA, scaleB, scaleC, scaleD](w)
+	kept[5] = ecs.NewFilter5[scaleA, scaleB, scaleC, scaleD, scaleE](w)
+	kept[6] = ecs.NewFilter6[scaleA, scaleB, scaleC, scaleD, scaleE, scaleF](w)
+	kept[7] = ecs.NewFilter7[scaleA, scaleB, scaleC, scaleD, scaleE, scaleF, scaleG](w)
+	kept[8] = ecs.NewFilter8[scaleA, scaleB, scaleC, scaleD, scaleE, scaleF, scaleG, scaleH](w)
+	sum := 0 // components over all archetypes created so far
+	for n := 1; n <= 8; n++ {
+		sum += n + n + 1
+	}
+	check := func() {
+		for n := 1; n <= 8; n++ {
+			uq := ecs.NewUnsafeFilter(w, ids[:n]...).Query()
+			uc := cnt(uq.Count(), uq.Next)
+			if uc != want[n] {
+				fail("scale|count", "%s: the ID-based filter over %d components yields %d entities, model %d", where, n, uc, want[n])
+			}
+			if got := typed(n, &none); got != want[n] {
+				fail("scale|typed-filter", "%s: a Filter%d used for the first time yields %d entities, the ID-based filter %d", where, n, got, uc)
+			}
+			if got := typed(n, &kept); got != want[n] {
+				fail("scale|typed-filter", "%s: the Filter%d kept from the start yields %d entities, the ID-based filter %d", where, n, got, uc)
+			}
+		}
+	}
+	newArch := func(l []ecs.ID) {
+		e := u.NewEntity(l...)
+		w.RemoveEntity(e)
+		sum += len(l)
+	}
+	// phase 1: big archetypes (windows over the filler types) up to a few hundred below 2^16; a check now and then
+	limit := 65536 - 100 - next(40)
+	step := 0
+outer:
+	for length := 60; length >= 40; length-- {
+		for start := 0; start+length <= len(fill); start++ {
+			if sum+length > limit {
+				break outer
+			}
+			newArch(fill[start : start+length])
+			step++
+			if step%97 == 0 {
+				where = fmt.Sprintf("scale history seed %d (versions) after %d archetypes with %d components in total", seed, step, sum)
+				check()
+			}
+		}
+	}
+	// phase 2: steps of one and two components through the limit
+	for i := 0; i < len(fill) && sum < 65536+100; i++ {
+		newArch(fill[i : i+1])
+		step++
+		where = fmt.Sprintf("scale history seed %d (versions) after %d archetypes with %d components in total", seed, step, sum)
+		check()
 	}
 }
 
